@@ -21,6 +21,13 @@ func c10() {
 	probeNr := uint64(t.Num["getppid"])
 	spec := vlib.SpecOf(&seccomp.Policy{DefaultAction: vlib.RetAllow, Syscalls: []seccomp.SyscallGroup{{Names: []string{"getppid"}, Action: vlib.RetErrno}}}, "x86_64")
 
+	var allow []string
+	for _, nm := range t.Names {
+		if nm != "getppid" {
+			allow = append(allow, nm)
+		}
+	}
+	longSpec := vlib.SpecOf(&seccomp.Policy{DefaultAction: vlib.RetErrno, Syscalls: []seccomp.SyscallGroup{{Names: allow, Action: vlib.RetAllow}}}, "x86_64")
 	states := []string{"spin", "probe", "sleep", "pipe", "futex"}
 	sizes := []int{1, 2, 4, 8, 16, 32, 64}
 	n := run.N(112, 4000)
@@ -52,7 +59,10 @@ func c10() {
 			tc.Threads[r.Intn(len(tc.Threads))] = "ownfilter"
 		}
 		// the flag is requested through the package's named constants; the kernel values are the oracle's
-		cc := &vlib.ChildCase{Policy: spec, NNP: true, TSync: tc}
+		cc := &vlib.ChildCase{Policy: spec, NNP: i%3 != 1, TSync: tc}
+		if i%4 == 2 { // a long program (early-return bridges) instead of the tiny one
+			cc.Policy = longSpec
+		}
 		if flags&1 != 0 {
 			cc.FlagNames = append(cc.FlagNames, "tsync")
 		}
